@@ -31,6 +31,26 @@ CHECKS = {
                      "All four configurations; thorough adds over-long frames crossing the 2047 guard.",
                 note="Trusted: z3, symx proxies (every path replayed on the pristine code). Stream lengths and cut positions enumerated.",
                 technique="bounded symbolic execution of the real reader twice on the same symbolic stream; equality of outputs decided by z3 per path"),
+    "C04": dict(level="model_checking", design="§4 C04",
+                text="The real DataReadout (built directly from bytes and obtained through ModeDReader with cuts) is executed on readouts with free printable/unconstrained data octets, four "
+                     "entirely free checksum characters (all 2^32 values incl. 0000, case variants, signs, blanks), free identification-line characters and a free window at every offset of a "
+                     "genuine readout. Per path the solver proves: valid => identification line well-formed and (four hex digits => value == independent bit-serial CRC16 of '/'..'!'), "
+                     "invalid with fine ident/ASCII/4-hex => checksum differs, payload == bytes between ident line and '!'.",
+                note="Trusted: z3, symx proxies incl. the int()/regex models (validated per path against the pristine code), the reference predicates in spec/ref_p1.py. "
+                     "'Is a checksum' is read as exactly four hex digits; other texts after '!' carry no claim.",
+                technique="bounded symbolic execution of the real code on z3 terms; CRC16 in GF(2)-affine form compared with an independent bit-serial definition"),
+    "C14": dict(level="model_checking", design="§4 C14",
+                text="HDLC reader (4 configurations) on 7/9 fully free octets and structured streams with every single cut and all message accessors; P1 reader and DataReadout accessors on six noise "
+                     "families with 3/5 free octets ('/'+free+LF, ident+free+LF, ident+data+'!'+free, '!' inside the ident line, ...); both protocol classes with [HDLC,P1] candidates. Any exception "
+                     "escaping on any feasible path is the violation; thorough also requires the clean suffix after the noise to be delivered (reader stays usable).",
+                note="Trusted: z3, symx proxies (per-path pristine replay). Exceptions raised by the models themselves are EngineLimit (inconclusive), never counted as passes.",
+                technique="bounded symbolic execution of the real readers/protocols on free octets; escaping exception on a feasible path = violation (z3 feasibility + concrete replay)"),
+    "C16": dict(level="model_checking", design="§4 C16",
+                text="Free noise (3/5 octets, any value) and structured bad predecessors (too-short, escape-terminated/aborted, complete-but-damaged at any position, truncated at any position, "
+                     "trailing escape) followed by three spec-built frames, every single cut, stuffing configurations: the solver proves per path that every clean frame except possibly the "
+                     "first is delivered valid; no-stuffing: frames starting beyond noise+2047+one frame length are delivered; P1: noise and readout-looking prefixes followed by three readouts.",
+                note="Trusted: z3, symx proxies (per-path pristine replay), spec frame/readout builders.",
+                technique="bounded symbolic execution of the real readers on free noise followed by spec-built messages (z3 + linear store)"),
 }
 
 NOT_YET = {}
